@@ -155,7 +155,7 @@ REQ_HOSTS = [H_SAME, H_SUB, H_SIB, H_LOOK, H_INNER]
 DOM_ATTRS = [None, "example.com", ".example.com", ".evil.org"]
 PATH_ATTRS = [None, "/foo"]
 PAST = "Thu, 01-Jan-1970 00:00:00 GMT"
-EXPIRY = [None, "Max-Age=0", f"Expires={PAST}", "Max-Age=3600"]
+EXPIRY = [None, "Max-Age=0", f"Expires={PAST}", "Max-Age=-1", "Max-Age=3600"]  # RFC 6265 5.2.2: a negative Max-Age expires the cookie as well
 
 
 class RefJar:
@@ -265,7 +265,7 @@ def obligations(tier):
     spec_q = dict(max_responses=2, set_hosts=[H_SUB, H_INNER], set_ports=[80, 8080], dom_attrs=DOM_ATTRS, expiry=EXPIRY[:2], first_plain=True,
                   names=["c"], req_hosts=REQ_HOSTS, req_ports=[80, 8080], req_paths=["/foo", "/foobar"])
     spec_t = dict(spec_q, set_hosts=[H_SAME, H_SUB, H_INNER], expiry=EXPIRY, req_paths=["/", "/foo", "/foobar", "/foo/bar"])
-    spec_store = dict(spec_t, do_request=False, names=["c"] if q else ["c", "d"], expiry=EXPIRY[:3] if q else EXPIRY)
+    spec_store = dict(spec_t, do_request=False, names=["c"] if q else ["c", "d"], expiry=EXPIRY[:4] if q else EXPIRY)
     spec_t3 = dict(max_responses=3, set_hosts=[H_SUB, H_INNER], set_ports=[80], dom_attrs=[None, ".example.com"], expiry=EXPIRY[:2], first_plain=False,
                    names=["c"], req_hosts=REQ_HOSTS, req_ports=[80, 8080], req_paths=["/", "/foo", "/foobar"])
     reach_h = ["response", "request", "attached", "attached-allowed", "foreign-rejected", "expiry-processed"]
@@ -288,7 +288,7 @@ def obligations(tier):
     obs.append(Symx("store-and-expire", lambda X: h_history(X, spec_store),
                     bounds="<= 2 Set-Cookie responses, no request; after each response every cookie in the real jar must be allowed by the reference jar "
                            "(hosts example.com / www.example.com / www.example.com.evil.org, second response port 80 / 8080, Domain none / example.com / .example.com / .evil.org, "
-                           "Path none / /foo, expiry none / Max-Age=0 / past Expires" + ("" if q else " / Max-Age=3600, cookie names c / d") + ")",
+                           "Path none / /foo, expiry none / Max-Age=0 / past Expires / Max-Age=-1" + ("" if q else " / Max-Age=3600, cookie names c / d") + ")",
                     encoded=ENCODED, must_reach=["response", "foreign-rejected", "expiry-processed"], parallel_depth=2))
     if not q:
         obs.append(Symx("history-3", lambda X: h_history(X, spec_t3),
